@@ -76,14 +76,20 @@ def serialize (r : ClientResp) (chunks : List Bytes) (trailers : List (Bytes × 
   | .cl _ => headBytes r ++ crlf ++ chunks.flatten
   | .chunked _ => headBytes r ++ crlf ++ encodeChunked chunks trailers
   | .eof => headBytes r ++ crlf ++ chunks.flatten           -- then the connection ends
-  | .unframed => headBytes r ++ crlf ++ chunks.flatten      -- and the connection stays open (F22)
-  | .unterminatedHead => headBytes r                         -- no blank line (F1; the `Trailer:` line is elided)
 
 /-- the body bytes a response carries on the wire -/
 def wireBody (r : ClientResp) (chunks : List Bytes) : Bytes :=
   match r.framing with
-  | .none | .unterminatedHead => []
+  | .none => []
   | _ => chunks.flatten
+
+/-- the body is sent in the chunked transfer coding -/
+def isChunked : Framing → Prop
+  | .chunked _ => True
+  | _ => False
+
+instance (f : Framing) : Decidable (isChunked f) := by
+  cases f <;> unfold isChunked <;> exact inferInstance
 
 def wireTrailers (r : ClientResp) (trailers : List (Bytes × Bytes)) : List (Bytes × Bytes) :=
   match r.framing with
@@ -286,8 +292,6 @@ def FramingDeclared (m : Bytes) (r : ClientResp) : Prop :=
   | .cl n => bodyKind m r.status ((flatFields r.fields).map normField) = some (.len n)
   | .chunked _ => bodyKind m r.status ((flatFields r.fields).map normField) = some .chunked
   | .eof => bodyKind m r.status ((flatFields r.fields).map normField) = some .eof
-  | .unframed => False
-  | .unterminatedHead => False
 
 /-- body pieces fit the framing: non-empty chunks; exactly `n` bytes under `Content-Length: n` -/
 def BodyFits (r : ClientResp) (chunks : List Bytes) : Prop :=
